@@ -9,6 +9,14 @@ from deeprob.spn.utils.validity import check_spn
 from deeprob.spn.structure.leaf import Leaf
 from deeprob.spn.structure.node import Node, Sum, Product, topological_order, topological_order_layered
 
+# Verification hooks (inactive unless DEEPROB_KIT_VERIF=1 and the hooks module is importable)
+_verif_hooks = None
+if __import__('os').environ.get('DEEPROB_KIT_VERIF') == '1':
+    try:
+        import deeprob_verif_hooks as _verif_hooks
+    except ImportError:
+        _verif_hooks = None
+
 
 def parallel_layerwise_eval(
     layers: List[List[Node]],
@@ -31,6 +39,9 @@ def parallel_layerwise_eval(
     with joblib.parallel_backend('threading', n_jobs=n_jobs):
         with joblib.Parallel() as parallel:
             for layer in layers:
+                if _verif_hooks is not None:
+                    layer = list(layer)
+                    _verif_hooks.layer_begin(layer)
                 parallel(joblib.delayed(eval_func)(node) for node in layer)
 
 
@@ -67,11 +78,15 @@ def eval_bottom_up(
     check_spn(root, labeled=True, smooth=True, decomposable=True)
 
     def eval_forward(n):
+        if _verif_hooks is not None:
+            _verif_hooks.task_begin(n)
         if isinstance(n, Leaf):
             ls[n.id] = leaf_func(n, x[:, n.scope], **leaf_func_kwargs)
         else:
             children_ls = np.stack([ls[c.id] for c in n.children], axis=1)
             ls[n.id] = node_func(n, children_ls, **node_func_kwargs)
+        if _verif_hooks is not None:
+            _verif_hooks.task_end(n)
 
     if n_jobs == 0:
         # Compute the topological ordering
@@ -89,7 +104,11 @@ def eval_bottom_up(
             raise ValueError("SPN structure is not a directed acyclic graph (DAG)")
         n_nodes, n_samples = sum(map(len, layers)), len(x)
         ls = np.empty(shape=(n_nodes, n_samples), dtype=np.float32)
+        if _verif_hooks is not None:
+            ls = _verif_hooks.trace_array('ls', ls)
         parallel_layerwise_eval(layers, eval_forward, reverse=True, n_jobs=n_jobs)
+        if _verif_hooks is not None:
+            ls = _verif_hooks.untrace(ls)
 
     if return_results:
         return ls[root.id], ls
@@ -136,6 +155,8 @@ def eval_top_down(
         x = np.copy(x)
 
     def eval_backward(n):
+        if _verif_hooks is not None:
+            _verif_hooks.task_begin(n)
         if isinstance(n, Leaf):
             mask = np.ix_(masks[n.id], n.scope)
             x[mask] = leaf_func(n, x[mask], **leaf_func_kwargs)
@@ -149,6 +170,8 @@ def eval_top_down(
                 masks[c.id] |= masks[n.id] & (branch == i)
         else:
             raise NotImplementedError(f"Top down evaluation not implemented for node of type {n.__class__.__name__}")
+        if _verif_hooks is not None:
+            _verif_hooks.task_end(n)
 
     if n_jobs == 0:
         # Compute the topological ordering
@@ -172,6 +195,11 @@ def eval_top_down(
         # Build the array consisting of top-down path masks
         masks = np.zeros(shape=(n_nodes, n_samples), dtype=np.bool_)
         masks[root.id] = True
+        if _verif_hooks is not None:
+            masks = _verif_hooks.trace_array('masks', masks)
+            x = _verif_hooks.trace_array('x', x)
         parallel_layerwise_eval(layers, eval_backward, reverse=False, n_jobs=n_jobs)
+        if _verif_hooks is not None:
+            x = _verif_hooks.untrace(x)
 
     return x
